@@ -111,7 +111,8 @@ func c05Run(sc c05Scn) c05Out {
 		},
 		C: b2f.Choices{BlockSize: blk, AcceptSpell: sc.Accept, RejectSpell: sc.Reject, DeferSpell: sc.Defer, Comments: sc.Comments, MOTD: sc.MOTD, FW: sc.FW, SID: sc.SID,
 			EarlyFQ: sc.EarlyFQ, DupMID: sc.Dup, LowerHex: sc.LowerHex, PropCM: sc.CM, HoldTurns: hold}}
-	plan := link.Plan{Cut: link.NoCut(), FailAfter: -1}
+	// a peer that says FQ early hangs up at once, as a CMS does: what the Session still writes then fails
+	plan := link.Plan{Cut: link.NoCut(), FailAfter: -1, PeerClosedWritesFail: sc.EarlyFQ}
 	for d := 0; d < 2; d++ {
 		plan.Seg[d].Every = c01Segs[sc.Seg]
 	}
@@ -134,6 +135,9 @@ func c05Run(sc c05Scn) c05Out {
 			}
 		}()
 		peer.Run(c)
+		if sc.EarlyFQ {
+			c.Close()
+		}
 	})
 	var o c05Out
 	fail := func(class, format string, a ...any) c05Out {
